@@ -31,6 +31,7 @@ class Concrete(object):
         self.p = provider
         self.cmd, self.data = _store_parts()
         self.k = 0
+        self.ph = 0          # what the decoder has been given so far: 0 nothing pending, 1 part of a command set, 2 command set complete
 
     def phase(self):
         d = self.p.state_machine.dimse_decoder
@@ -39,18 +40,27 @@ class Concrete(object):
         return 2 if d.command_set_received else 1
 
     def segment(self, toks):
-        """the bytes of one delivered segment, decided when the provider reads it: the P-DATA tokens are made to mean to the
-        DIMSE decoder what the model says (`pdataMore` leaves its message incomplete, `pdataDone` completes it), given what
-        the decoder holds at that moment and what the earlier tokens of the same segment will have done to it"""
+        """the bytes of one delivered segment, decided when the provider reads it.  The P-DATA tokens are made to mean to
+        the DIMSE decoder what the model says (`pdataMore` leaves its message incomplete, `pdataDone` completes it) given
+        what has been DELIVERED to the decoder so far - tracked here, not read from the implementation, so that an
+        implementation that forgets or keeps decoder state at the wrong moment is found out.  A P-DATA token counts as
+        delivered to the decoder when the provider is in Sta6/Sta7 as it reads the segment and only P-DATA tokens precede it
+        in the segment (any other PDU there takes the association out of data transfer)."""
         reach = self.p.state in (6, 7)
-        ph = self.phase() if reach else 0
         out = b''
         for tok in toks:
-            out += self.rx(tok, reach, ph)
-            if tok == 'pdataMore':
-                ph = {0: 1, 1: 2, 2: 2}[ph]
-            elif tok in ('pdataDone', 'pdataErr'):
-                ph = 0
+            if tok not in ('pdataMore', 'pdataDone', 'pdataErr'):
+                reach = False
+                out += self.rx(tok, False, 0)
+                continue
+            out += self.rx(tok, reach, self.ph if reach else 0)
+            if reach:
+                if tok == 'pdataMore':
+                    self.ph = {0: 1, 1: 2, 2: 2}[self.ph]
+                else:
+                    self.ph = 0
+                    if tok == 'pdataErr':
+                        reach = False       # the provider aborts: nothing behind it reaches the decoder
         return out
 
     def rx(self, tok, will_reach_decoder, ph=None):
